@@ -208,6 +208,9 @@ pub async fn run_case(b: &mut Builder, tree: &Tree, order: &[usize], sut_params:
         if old_len > 0 && should_adopt {
             rep.count("decisions.reorg_expected");
         }
+        if old_len > 0 && new_len > old_len && new_bf == old_bf {
+            rep.count("decisions.longer_with_exactly_equal_burn_fee");
+        }
         let moved = n_hash != t_hash;
         if moved {
             rep.count("tip_moves");
@@ -348,7 +351,7 @@ pub async fn run(ctx: &Ctx, rep: &mut Report) {
         let mut gt: Vec<bool> = (0..trunk).map(|i| (i + 2) % 2 == 0).collect();
         let mut gaps: Vec<u64> = vec![2 * hb; trunk];
         let family;
-        match r % 5 {
+        match r % 6 {
             0 => {
                 // equal length ties: the second branch must never displace the first
                 family = "equal-length";
@@ -423,6 +426,27 @@ pub async fn run(ctx: &Ctx, rep: &mut Report) {
                     c = parents.len();
                     gt.push(j == 0); // one ticket at the start, none afterwards
                     gaps.push(hb * 2);
+                }
+            }
+            5 => {
+                // strictly longer with EXACTLY the same accumulated burn fee: the burn fee of a
+                // block is its parent's times sqrt(heartbeat / gap), so gaps of 4, 4 heartbeats
+                // (factors 1/2, 1/2: 0.5 + 0.25) and of 6.25, 2.56, 6.25 heartbeats (factors 2/5,
+                // 5/8, 2/5: 0.4 + 0.25 + 0.1) give equal sums; "at least as much" must adopt
+                family = "longer-with-equal-burn-fee";
+                let mut a = trunk;
+                let mut c = trunk;
+                for (j, g) in [hb * 4, hb * 4].iter().enumerate() {
+                    parents.push(a);
+                    a = parents.len();
+                    gt.push((trunk + j) % 2 == 1);
+                    gaps.push(*g);
+                }
+                for (j, g) in [hb * 25 / 4, hb * 64 / 25, hb * 25 / 4].iter().enumerate() {
+                    parents.push(c);
+                    c = parents.len();
+                    gt.push((trunk + j) % 2 == 1);
+                    gaps.push(*g);
                 }
             }
             _ => {
